@@ -127,3 +127,38 @@ def hex2(v):
         from engine import chmodels
         return chmodels.hex2_upper(v)
     return b"%02X" % v
+
+
+def pack_bits(bits):
+    """reference LSB-first packing of a list of (possibly symbolic) bools into bytes, zero padded"""
+    if STATE["symbolic"]:
+        from engine import chmodels
+        return chmodels.ref_pack_bits(bits)
+    out = bytearray((len(bits) + 7) // 8)
+    for i, b in enumerate(bits):
+        if b:
+            out[i // 8] |= 1 << (i % 8)
+    return bytes(out)
+
+
+def bitand16(a, b):
+    """a & b for 16-bit values"""
+    if STATE["symbolic"]:
+        from engine import chmodels
+        return chmodels.bv16(a, b, "and")
+    return a & b
+
+
+def bitor16(a, b):
+    if STATE["symbolic"]:
+        from engine import chmodels
+        return chmodels.bv16(a, b, "or")
+    return a | b
+
+
+def bitnot16(a):
+    """one's complement of a 16-bit value"""
+    if STATE["symbolic"]:
+        from engine import chmodels
+        return chmodels.bitnot16(a)
+    return 65535 - a
